@@ -707,7 +707,13 @@ pub fn run(args: &Args) {
     // above the last (random short histories almost only see trivial moves, and a merge into the
     // last level is a GC, which the batch-granular model does not cover), so that the system-call
     // order of a merge compaction is compared with `StoreCrash.block (.compact ..)` on every run
-    let directed = 3u64;
+    // ... and one whose write-ahead log grows past the 1 MiB block boundary of the log format, so
+    // that an append straddles the boundary (FIRST frame, padding, SECOND frame) and the crash points
+    // around it are explored: values have to be large (the limit is 32 KiB) and the memtable must
+    // not roll over
+    // ... and one that reopens (and crashes around the reopen of) a store whose level 0 holds more
+    // mutually overlapping files than the tree has levels, so that `recover` has to shift its chain
+    let directed = 5u64;
     for h in 0..nh + directed {
         let mut rng = Rng::for_case(args.seed, 102, h);
         let mut cfg = Cfg::gen(&mut rng);
@@ -715,9 +721,39 @@ pub fn run(args: &Args) {
         let nkeys = if h % 2 == 0 { 4 } else { 7 };
         let single = h % 4 != 3;
         let mut ops = gen_c02_history(&mut rng, len, nkeys, single, h % 3 == 2);
-        if h >= nh {
+        if h >= nh && h - nh < 3 {
             cfg.memtable_bytes = 1 << 20;
             ops = directed_merge_history((h - nh) as usize, &mut rng);
+        } else if h >= nh && h - nh == 4 {
+            cfg.memtable_bytes = 1 << 20;
+            cfg.l0_mandatory_files = 64;
+            cfg.l0_stall_files = 64;
+            ops = vec![];
+            let mut counter = 0u64;
+            for i in 0..19usize {
+                // every file spans the same two keys: 19 overlapping files, timestamps disjoint
+                ops.push(Op::Put(ALPHABET[1].to_vec(), gen_val(&mut rng, &mut counter)));
+                if i == 0 {
+                    // the newest version of this key lives in the OLDEST file
+                    ops.push(Op::Put(ALPHABET[5].to_vec(), gen_val(&mut rng, &mut counter)));
+                }
+                ops.push(Op::Put(ALPHABET[11].to_vec(), gen_val(&mut rng, &mut counter)));
+                ops.push(Op::Flush);
+            }
+            ops.push(Op::Reopen);
+            ops.push(Op::Put(ALPHABET[9].to_vec(), gen_val(&mut rng, &mut counter)));
+            ops.push(Op::Reopen);
+        } else if h >= nh {
+            cfg.memtable_bytes = 1 << 26;
+            ops = vec![];
+            let mut counter = 0u64;
+            for i in 0..46usize {
+                let mut v = gen_val(&mut rng, &mut counter);
+                v.resize(if i % 5 == 4 { 200 } else { 31000 + (i * 37) % 900 }, b'.');
+                ops.push(Op::Put(ALPHABET[1 + i % 11].to_vec(), v));
+            }
+            ops.push(Op::Reopen);
+            ops.push(Op::Put(ALPHABET[1].to_vec(), gen_val(&mut rng, &mut counter)));
         }
         let work = scratch_dir(&format!("c02w.{}", h));
         std::fs::create_dir_all(&work).unwrap();
@@ -732,7 +768,7 @@ pub fn run(args: &Args) {
                 continue;
             }
         };
-        if h >= nh {
+        if h >= nh && h - nh < 3 {
             for l in traced.report.lines().filter(|l| l.starts_with("op ")) {
                 rec.aux(&format!("directed {} {}", h - nh, l));
             }
@@ -870,6 +906,7 @@ pub fn run(args: &Args) {
         };
         for (job, r1) in jobs1.iter().zip(res1.iter()) {
             let (p, model_b, upto, done, inflight) = (job.p, job.model_b, job.upto, job.done, job.inflight);
+            rec.aux(&format!("reopen h{} p{} model {} acked {} exit {:?} batches {:?} last `{}`", h, p, if model_b { "b" } else { "a" }, done, r1.code, r1.batches, r1.text.lines().last().unwrap_or("").chars().take(100).collect::<String>()));
             let want_a = expected_state(&ops, done, nkeys);
             let want_b = inflight.map(|k| expected_state(&ops, k + 1, nkeys));
             // the oracle on one reopened image
